@@ -73,6 +73,15 @@ func (c *Canon) EncValue(v rt.Value) string {
 	}
 }
 
+// EncList encodes each value separately.
+func (c *Canon) EncList(vs []rt.Value) []string {
+	out := make([]string, len(vs))
+	for i, v := range vs {
+		out[i] = c.EncValue(v)
+	}
+	return out
+}
+
 func (c *Canon) EncValues(vs []rt.Value) string {
 	var sb strings.Builder
 	for i, v := range vs {
@@ -86,16 +95,19 @@ func (c *Canon) EncValues(vs []rt.Value) string {
 
 // Trace is what the host observed.
 type Trace struct {
-	Events     []string `json:"events"`
-	Rets       string   `json:"rets,omitempty"`
-	Err        string   `json:"err,omitempty"`         // canonical error value, "" if none
-	CompileErr string   `json:"compile_err,omitempty"` // message of a compile error
-	Panic      string   `json:"panic,omitempty"`       // recovered Go panic (never expected)
-	Status     string   `json:"status,omitempty"`      // context status if run in a context
-	Killed     bool     `json:"killed,omitempty"`
-	UsedCPU    uint64   `json:"used_cpu,omitempty"`
-	UsedMem    uint64   `json:"used_mem,omitempty"`
-	Stdout     string   `json:"stdout,omitempty"`
+	Events     []string   `json:"events"`
+	EventList  [][]string `json:"-"` // the same events, one token per value
+	RetList    []string   `json:"-"`
+	ErrTok     string     `json:"-"`
+	Rets       string     `json:"rets,omitempty"`
+	Err        string     `json:"err,omitempty"`         // canonical error value, "" if none
+	CompileErr string     `json:"compile_err,omitempty"` // message of a compile error
+	Panic      string     `json:"panic,omitempty"`       // recovered Go panic (never expected)
+	Status     string     `json:"status,omitempty"`      // context status if run in a context
+	Killed     bool       `json:"killed,omitempty"`
+	UsedCPU    uint64     `json:"used_cpu,omitempty"`
+	UsedMem    uint64     `json:"used_mem,omitempty"`
+	Stdout     string     `json:"stdout,omitempty"`
 }
 
 func (t *Trace) String() string {
@@ -164,8 +176,10 @@ func Run(src string, o Opts) (tr *Trace) {
 		if len(tr.Events) >= maxEv {
 			return nil, fmt.Errorf("too many events")
 		}
-		e := canon.EncValues(c.Etc())
+		l := canon.EncList(c.Etc())
+		e := strings.Join(l, " ")
 		tr.Events = append(tr.Events, e)
+		tr.EventList = append(tr.EventList, l)
 		if o.EventHook != nil {
 			o.EventHook(t.Runtime, e)
 		}
@@ -192,7 +206,8 @@ func Run(src string, o Opts) (tr *Trace) {
 		if err := rt.Call(r.MainThread(), rt.FunctionValue(clos), args, term); err != nil {
 			return err
 		}
-		tr.Rets = canon.EncValues(term.Etc())
+		tr.RetList = canon.EncList(term.Etc())
+		tr.Rets = strings.Join(tr.RetList, " ")
 		return nil
 	}
 	var err error
@@ -223,6 +238,7 @@ func Run(src string, o Opts) (tr *Trace) {
 	}
 	if err != nil {
 		tr.Err = canon.EncValue(rt.ErrorValue(err))
+		tr.ErrTok = tr.Err
 	}
 	return tr
 }
